@@ -39,7 +39,12 @@ RULE = (
     "before the call, called twice, return_episode_rewards on/off. load: several Monitor files in one directory "
     "read back with load_results, and a file continued with override_existing=False. Rewards are multiples of 1/64 "
     "(every float32/float64 sum and round(.,6) is exact: implementation and Rat model must agree exactly) or, in the "
-    "float stream, decimal fractions compared at 1e-5. Clock replaced by a deterministic strictly increasing one. "
+    "float stream, decimal fractions no binary float represents, checked against the exact rational sum within bounds "
+    "DERIVED per component: Monitor (float64 sum, 6-decimal rounding) 5e-7 + (n+2)*2^-52*sum|r| and the value must have "
+    "6 decimals; Monitor.episode_returns and evaluate_policy's own accumulators (n+2)*2^-52*sum|r|; VecMonitor (float32 by "
+    "design) (n+2)*2^-24*sum|r|; mean/std: largest per-return bound + rounding of np.mean/np.std in the returns' dtype. "
+    "The env hands out its rewards as python float / np.float64 / np.float32 / 0-d arrays / np.int64; a few cases per run "
+    "have single episodes of 200-1500 steps (2500 in thorough). Clock replaced by a deterministic strictly increasing one. "
     "non-trivial = monitor case with an early reset inside an episode that later completes / vecmonitor case with "
     ">=2 envs ending episodes at different steps / eval case with n_eval_episodes not a multiple of n_envs (or fewer "
     "than n_envs) and unequal episode lengths / load case with >=2 files whose episodes interleave; distinct = distinct "
@@ -52,7 +57,8 @@ STREAMS = {
     "eval": "returned (rewards, lengths) in order, number of env.step calls until evaluate_policy stopped == model "
             "(model given the raw env outputs beyond the stopping point)",
     "load": "order of the rows returned by load_results for several files / appended sessions == model",
-    "float": "same streams with non-dyadic rewards, compared at 1e-5 (float32 accumulation, round(.,6))",
+    "float": "same streams with non-representable rewards of every reward dtype and long episodes, compared with the "
+             "exact Rat model within the bound derived for the component (float64 / float64 + round6 / float32)",
 }
 
 STEP_LIMIT = 4000
@@ -71,13 +77,44 @@ class ScriptedEnvKw(ScriptedEnv):
     """ScriptedEnv that accepts extra reset keywords (Monitor.reset_keywords are forwarded to the env) and refuses
     to run forever (a broken quota loop must surface as an exception, not as a hang)."""
 
+    def __init__(self, *a, rdtype="float", **kw):
+        super().__init__(*a, **kw)
+        self.rdtype = rdtype
+
     def reset(self, *, seed=None, options=None, **kwargs):
         return super().reset(seed=seed, options=options)
 
     def step(self, action):
         if self.n_steps >= STEP_LIMIT:
             raise RuntimeError("C18 harness: step budget exceeded (evaluation loop does not terminate)")
-        return super().step(action)
+        obs, rew, te, tr, info = super().step(action)
+        out = conv_reward(rew, self.rdtype)
+        self.log[-1][3] = float(out)  # the log (ground truth) holds the value that was actually handed out
+        return obs, out, te, tr, info
+
+
+RDTYPES = ["float", "f64", "f32", "arr0", "arr0f32", "int"]
+
+
+def conv_reward(r, rdtype):
+    """the object the env returns as reward (gymnasium: SupportsFloat)"""
+    if rdtype == "float":
+        return float(r)
+    if rdtype == "f64":
+        return np.float64(r)
+    if rdtype == "f32":
+        return np.float32(r)
+    if rdtype == "arr0":
+        return np.array(r, dtype=np.float64)
+    if rdtype == "arr0f32":
+        return np.array(r, dtype=np.float32)
+    if rdtype == "int":
+        return np.int64(round(r))
+    raise ValueError(rdtype)
+
+
+def gen_rdtype(rng):
+    return rng.weighted([("float", 4), ("f64", 2), ("f32", 4), ("arr0", 1), ("arr0f32", 1), ("int", 1)])
 
 
 class ZeroPolicy:
@@ -185,7 +222,7 @@ def gen_monitor(rng, widen, floaty=False, finding_rate=1.0):
                 pos += 1
                 if e[1] or e[2]:
                     done = True
-    return {"kind": "monitor", "float": floaty, "allow_early": allow_early, "file": rng.chance(0.6),
+    return {"kind": "monitor", "float": floaty, "rdtype": gen_rdtype(rng), "allow_early": allow_early, "file": rng.chance(0.6),
             "info_keys": info_keys, "reset_keys": reset_keys, "script": script, "ops": ops, "clock": gen_clock(rng)}
 
 
@@ -194,7 +231,7 @@ def gen_vecmonitor(rng, widen, floaty=False):
     ops = ["reset"]
     for _ in range(rng.randint(1, 50 if widen else 30)):
         ops.append("reset" if rng.chance(0.08) else "step")
-    return {"kind": "vecmonitor", "float": floaty, "n": n, "scripts": [gen_script18(rng, floaty) for _ in range(n)],
+    return {"kind": "vecmonitor", "float": floaty, "rdtype": gen_rdtype(rng), "n": n, "scripts": [gen_script18(rng, floaty) for _ in range(n)],
             "file": rng.chance(0.6), "info_keys": rng.weighted([([], 4), (["tag"], 3), (["tag", "k"], 1)]),
             "inner_monitor": rng.chance(0.15), "ops": ops, "clock": gen_clock(rng)}
 
@@ -210,7 +247,7 @@ def gen_eval(rng, widen, floaty=False):
         style = rng.weighted([(None, 5), ("len1", 1), ("mixed", 2)])
         scripts.append(gen_script18(rng, floaty, need_done=True, style=style,
                                     length=rng.weighted([(None, 4), (1, 1), (2, 1), (rng.randint(15, 30), 1)])))
-    return {"kind": "eval", "float": floaty, "n": n, "N": N, "wrap": wrap, "scripts": scripts,
+    return {"kind": "eval", "float": floaty, "rdtype": gen_rdtype(rng), "n": n, "N": N, "wrap": wrap, "scripts": scripts,
             "gym_env": n == 1 and wrap in ("none", "monitor") and rng.chance(0.5),
             "pre_steps": rng.weighted([(0, 5), (1, 2), (rng.randint(2, 9), 2)]),
             "twice": rng.chance(0.25), "N2": rng.randint(0, 9), "ret_eps": not rng.chance(0.15),
@@ -228,6 +265,45 @@ def gen_load(rng, widen, floaty=False, finding_rate=1.0):
             "scripts": [gen_script18(rng, False, need_done=rng.chance(0.9)) for _ in range(n)],
             "steps": rng.randint(0, 40 if widen else 25), "steps2": rng.randint(0, 12),
             "gap": rng.choice([0.125, 2.0, 40.5]), "clock": gen_clock(rng)}
+
+
+LONG_REWARDS = [0.1, 0.3, 1 / 3.0, -0.2, 0.7, 1.1, 0.001, 2.675]
+
+
+def long_script(rng, length):
+    """one episode of `length` steps (final step ends it), rewards that no binary float represents exactly"""
+    pool = [rng.choice(LONG_REWARDS) for _ in range(rng.randint(1, 3))]
+    s = [[float(rng.choice(pool)), False, False] for _ in range(length)]
+    s[-1][1 + rng.randint(0, 1)] = True
+    return s
+
+
+def gen_long(rng, kind, thorough):
+    """long episodes in the float stream: accumulation error grows with the length, the derived bounds must still hold
+    (and a float32 running sum where float64 is specified must not)"""
+    rdtype = rng.weighted([("f32", 5), ("arr0f32", 1), ("f64", 2), ("float", 2)])
+    top = 2500 if thorough else 1500
+    clock = gen_clock(rng)
+    if kind == "monitor":
+        L = rng.randint(300, top)
+        ops = [["reset", {}]] + [["step"]] * L + [["reset", {}]] + [["step"]] * rng.randint(0, 40)
+        return {"kind": "monitor", "float": True, "long": True, "rdtype": rdtype, "allow_early": True, "file": rng.chance(0.5),
+                "info_keys": rng.choice([[], ["tag"]]), "reset_keys": [], "script": long_script(rng, L), "ops": ops,
+                "clock": clock}
+    if kind == "vecmonitor":
+        n = rng.randint(1, 3)
+        Ls = [rng.randint(200, top) for _ in range(n)]
+        return {"kind": "vecmonitor", "float": True, "long": True, "rdtype": rdtype, "n": n,
+                "scripts": [long_script(rng, L) for L in Ls], "file": rng.chance(0.5), "info_keys": [],
+                "inner_monitor": False, "ops": ["reset"] + ["step"] * (max(Ls) + rng.randint(0, 30)), "clock": clock}
+    n = rng.randint(1, 2)
+    N = rng.randint(1, 2) * n if rng.chance(0.5) else rng.randint(1, 3)
+    per_env = -(-N // n) + 1
+    Ls = [rng.randint(200, min(top, 1500, (STEP_LIMIT - 100) // per_env)) for _ in range(n)]
+    return {"kind": "eval", "float": True, "long": True, "rdtype": rdtype, "n": n, "N": N,
+            "wrap": rng.weighted([("none", 2), ("monitor", 4), ("vecmonitor", 2), ("both", 1)]),
+            "scripts": [long_script(rng, L) for L in Ls], "gym_env": False, "pre_steps": rng.choice([0, 0, 3]),
+            "twice": False, "N2": 0, "ret_eps": not rng.chance(0.2), "callback": False, "allow_early": True, "clock": clock}
 
 
 def gen_cases(ctx):
@@ -249,6 +325,9 @@ def gen_cases(ctx):
         cases.append(gen_vecmonitor(rng, ctx.widen, floaty=True))
     for _ in range(ctx.budget(30, 300)):
         cases.append(gen_eval(rng, ctx.widen, floaty=True))
+    for kind, q, t in (("monitor", 8, 60), ("vecmonitor", 4, 30), ("eval", 8, 60)):
+        for _ in range(ctx.budget(q, t)):
+            cases.append(gen_long(rng, kind, ctx.thorough))
     return cases
 
 
@@ -353,11 +432,19 @@ def shrink_candidates(case):
 
 # ------------------------------------------------------------------------------------------------------------------
 # ground truth from the scripted environments' own logs
-def truth_from_log(log, start=0):
+def f32(x):
+    """the value a float32 array slot holds after `buf[i] = x` (DummyVecEnv.buf_rews is float32)"""
+    return float(np.float32(x))
+
+
+def truth_from_log(log, start=0, cast=None):
     """
     log: ScriptedEnv.log ([["reset", seed, options, tag] | ["step", action, tag, reward, terminated, truncated, ...]]).
+    `cast`: what the observer sees of a reward (None: the env's own value, as a Monitor inside the VecEnv does;
+    `f32`: the float32 value DummyVecEnv hands to VecMonitor / evaluate_policy).
     Returns (episodes, per_entry, proto_ok):
-      episodes  : [(return, length, tag of the final step, index in log)] of every episode that was completed,
+      episodes  : [(return, length, tag of the final step, index in log, sum of |rewards|)] of every episode that was
+                  completed (exact rational arithmetic),
                   an episode being the steps the env received since its last reset() up to a final step;
       per_entry : for each log entry from `start`, the episode tuple if that entry completed one, else None;
       proto_ok  : False if the env was stepped after an episode end (or before any reset) without a reset in between.
@@ -373,9 +460,9 @@ def truth_from_log(log, start=0):
             if cur is None:
                 ok = False
                 cur = []
-            cur.append(F(e[3]))
+            cur.append(F(e[3]) if cast is None else F(cast(e[3])))
             if e[4] or e[5]:
-                ep = (sum(cur, F(0)), len(cur), e[2], idx)
+                ep = (sum(cur, F(0)), len(cur), e[2], idx, sum((abs(x) for x in cur), F(0)))
                 eps.append(ep)
                 per.append(ep)
                 cur = None
@@ -384,11 +471,59 @@ def truth_from_log(log, start=0):
     return eps, per, ok
 
 
-def close_enough(a, b, floaty):
-    """a, b exact Fractions; exact stream: equal; float stream: 1e-5 (float32 accumulation / 6-digit rounding)"""
+E52 = 2.0 ** -52
+E24 = 2.0 ** -24
+
+
+def tol_for(component, n, abs_sum, floaty):
+    """
+    DERIVED absolute bound on |reported return - exact sum of the n rewards| per component (abs_sum = sum |r_i|).
+    Exact stream (rewards multiples of 1/64): 0, everything must be exact. Float stream:
+      monitor : Monitor adds python floats (float64: each of the n-1 additions rounds by <= 2^-53 * partial sum,
+                partial sums <= abs_sum) and then rounds to 6 decimals (<= 5e-7, result again a double)
+      f64     : float64 accumulation without rounding (Monitor.episode_returns, evaluate_policy's own accumulators)
+      f32     : VecMonitor accumulates in float32 by design: n roundings of <= 2^-24 * partial sum (+ one for a
+                decimal print/parse of the float32 in the CSV)
+    """
     if not floaty:
+        return 0.0
+    a = float(abs_sum)
+    if component == "monitor":
+        return 5e-7 + (n + 2) * E52 * max(1.0, a) + 1e-12
+    if component == "f64":
+        return (n + 2) * E52 * max(1.0, a)
+    if component == "f32":
+        return (n + 2) * E24 * a + 1e-12
+    raise ValueError(component)
+
+
+def close_enough(a, b, tol):
+    """a, b exact Fractions; tol = 0: equal; else |a - b| <= tol (exact arithmetic)"""
+    if not tol:
         return a == b
-    return abs(float(a) - float(b)) <= 1e-5 * max(1.0, abs(float(b)))
+    return abs(F(a) - F(b)) <= F(tol)
+
+
+def six_decimals(x):
+    """x (a Fraction holding a double) is the double nearest to a number with at most 6 decimals"""
+    return float(x) == round(float(x), 6)
+
+
+def rmax_of(case):
+    sc = case["scripts"] if "scripts" in case else [case["script"]]
+    return 1.000001 * max([1e-30] + [abs(float(conv_reward(e[0], case.get("rdtype", "float")))) for s_ in sc for e in s_])
+
+
+def ctol(component, case):
+    """correspondence tolerance as a function of the episode length: the model computes the exact value (and the
+    exact 6-decimal rounding for Monitor), the implementation is within tol_for of it; sum |r_i| <= l * max |r|"""
+    floaty = case["float"]
+    rm = rmax_of(case) if floaty else 0.0
+
+    def f(l):
+        t = tol_for(component, l, l * rm, floaty)
+        return t + (5e-7 if (floaty and component == "monitor") else 0.0)
+    return f
 
 
 def ep_canon(ep):
@@ -404,10 +539,11 @@ def model_ep(j):
     return {"r": unratj(j["r"]), "l": j["l"], "extra": {k: v for k, v in j["extra"]}}
 
 
-def ep_same(a, b, floaty):
+def ep_same(a, b, tolf):
+    """tolf: episode length -> tolerance on the return"""
     if a is None or b is None:
         return a is None and b is None
-    return a["l"] == b["l"] and a["extra"] == b["extra"] and close_enough(a["r"], b["r"], floaty)
+    return a["l"] == b["l"] and a["extra"] == b["extra"] and close_enough(a["r"], b["r"], tolf(a["l"]))
 
 
 def read_results(path):
@@ -455,7 +591,7 @@ def run_monitor(ctx, case):
     try:
         clock = FakeClock(case["clock"]["t0"], case["clock"]["dts"])
         with patched_time(clock):
-            env = ScriptedEnvKw(env_id=0, script=case["script"])
+            env = ScriptedEnvKw(env_id=0, script=case["script"], rdtype=case.get("rdtype", "float"))
             mon = Monitor(env, filename=os.path.join(tmp, "m") if tmp else None, allow_early_resets=case["allow_early"],
                           reset_keywords=tuple(case["reset_keys"]), info_keywords=tuple(case["info_keys"]))
             outcomes, mops, loglen = [], [], []
@@ -565,9 +701,10 @@ def oracle_monitor(ctx, case, r):
             n_true += 1
             want = (sum(cur_true, F(0)), len(cur_true))
             got = (ep["r"], ep["l"])
-            if not (close_enough(got[0], want[0], floaty) and got[1] == want[1]):
+            tol = tol_for("monitor", len(cur_true), sum((abs(x) for x in cur_true), F(0)), floaty)
+            if not (close_enough(got[0], want[0], tol) and got[1] == want[1] and (not floaty or six_decimals(got[0]))):
                 wdef = (sum(cur_def, F(0)), len(cur_def))
-                explained = close_enough(got[0], wdef[0], floaty) and got[1] == wdef[1]
+                explained = close_enough(got[0], wdef[0], tol) and got[1] == wdef[1]
                 cause = "reset-missing-keyword" if (kwfail_in_episode and explained) else "other"
                 rep.violation("info['episode'] is not the return/length of the episode that ended", case,
                               dict(sig, field="episode", cause=cause),
@@ -596,7 +733,9 @@ def oracle_monitor(ctx, case, r):
         rep.violation("oracle bookkeeping mismatch", case, dict(sig, field="bookkeeping"))
         return False
     got = list(zip(r["returns"], r["lengths"]))
-    if len(got) != len(truth) or not all(close_enough(g[0], t[0], floaty) and g[1] == t[1] for g, t in zip(got, truth)):
+    # episode_returns is the unrounded float64 sum
+    if len(got) != len(truth) or not all(close_enough(g[0], e[0], tol_for("f64", e[1], e[4], floaty)) and g[1] == e[1]
+                                         for g, e in zip(got, eps)):
         rep.violation("get_episode_rewards/lengths are not the completed episodes in order", case, dict(sig, field="attributes"),
                       {"got": [[str(a), b] for a, b in got], "true": [[str(a), b] for a, b in truth]})
         return False
@@ -607,7 +746,8 @@ def oracle_monitor(ctx, case, r):
         return False
     if r["file_rows"] is not None:
         rows = [(x["r"], x["l"]) for x in r["file_rows"]]
-        if len(rows) != len(truth) or not all(close_enough(g[0], t[0], floaty) and g[1] == t[1] for g, t in zip(rows, truth)):
+        if len(rows) != len(truth) or not all(close_enough(g[0], e[0], tol_for("monitor", e[1], e[4], floaty)) and g[1] == e[1]
+                                              for g, e in zip(rows, eps)):
             rep.violation("load_results does not list the completed episodes in order", case, dict(sig, field="file"),
                           {"got": [[str(a), b] for a, b in rows], "true": [[str(a), b] for a, b in truth]})
             return False
@@ -642,12 +782,14 @@ def cmp_monitor(ctx, case, r, mo):
             if isinstance(a, str) or isinstance(b, str):
                 ok = ok and a == b
             else:
-                ok = ok and ep_same(a["ep"], b["ep"], floaty)
+                ok = ok and ep_same(a["ep"], b["ep"], ctol("monitor", case))
     if not ok:
         rep.disagree("monitor", case, [str(x) for x in impl_outs], [str(x) for x in model_outs], "answers to the calls")
         return
     m_ret = [unratj(x) for x in mo["returns"]]
-    if not (len(m_ret) == len(r["returns"]) and all(close_enough(a, b, floaty) for a, b in zip(r["returns"], m_ret))
+    t64 = ctol("f64", case)
+    if not (len(m_ret) == len(r["returns"]) and len(r["lengths"]) == len(m_ret)
+            and all(close_enough(a, b, t64(l)) for a, b, l in zip(r["returns"], m_ret, r["lengths"]))
             and mo["lengths"] == r["lengths"] and mo["total_steps"] == r["total_steps"]
             and mo["needs_reset"] == r["needs_reset"]):
         rep.disagree("monitor", case, {"returns": [str(x) for x in r["returns"]], "lengths": r["lengths"],
@@ -662,7 +804,7 @@ def cmp_monitor(ctx, case, r, mo):
     if r["file_rows"] is not None:
         m_rows = [model_ep(x) for x in mo["rows"]]
         i_rows = [{"r": x["r"], "l": x["l"], "extra": x["extra"]} for x in r["file_rows"]]
-        if len(m_rows) != len(i_rows) or not all(ep_same(a, b, floaty) for a, b in zip(i_rows, m_rows)):
+        if len(m_rows) != len(i_rows) or not all(ep_same(a, b, ctol("monitor", case)) for a, b in zip(i_rows, m_rows)):
             rep.disagree("monitor", case, [str(x) for x in i_rows], [str(x) for x in m_rows], "rows read back with load_results")
             return
     rep.agree()
@@ -671,9 +813,9 @@ def cmp_monitor(ctx, case, r, mo):
 # ------------------------------------------------------------------------------------------------------------------
 # kind: vecmonitor
 def make_env_fn(i, script, monitor=False, filename=None, info_keywords=(), allow_early=True, override_existing=True,
-                id_offset=0):
+                id_offset=0, rdtype="float"):
     def f():
-        env = ScriptedEnvKw(env_id=i + id_offset, script=script)
+        env = ScriptedEnvKw(env_id=i + id_offset, script=script, rdtype=rdtype)
         if monitor:
             from stable_baselines3.common.monitor import Monitor
 
@@ -693,7 +835,8 @@ def run_vecmonitor(ctx, case):
         clock = FakeClock(case["clock"]["t0"], case["clock"]["dts"])
         with patched_time(clock), warnings.catch_warnings():
             warnings.simplefilter("ignore")
-            venv = DummyVecEnv([make_env_fn(i, case["scripts"][i], monitor=case["inner_monitor"]) for i in range(n)])
+            venv = DummyVecEnv([make_env_fn(i, case["scripts"][i], monitor=case["inner_monitor"],
+                                            rdtype=case.get("rdtype", "float")) for i in range(n)])
             vm = VecMonitor(venv, filename=os.path.join(tmp, "v") if tmp else None, info_keywords=tuple(case["info_keys"]))
             steps, mops = [], []
             for op in case["ops"]:
@@ -728,7 +871,7 @@ def oracle_vecmonitor(ctx, case, r):
     sig = {"kind": "vecmonitor", "n": n}
     order = []  # emission order over the whole run: (step index, env)
     for i in range(n):
-        eps, per, ok = truth_from_log(r["logs"][i])
+        eps, per, ok = truth_from_log(r["logs"][i], cast=f32)  # VecMonitor sees DummyVecEnv's float32 rewards
         if not ok:
             rep.violation("oracle: scripted env stepped without reset", case, dict(sig, field="protocol"))
             return
@@ -746,7 +889,7 @@ def oracle_vecmonitor(ctx, case, r):
                               {"env": i, "op_index": si})
                 return
             if truth is not None:
-                if not (close_enough(ep["r"], truth[0], floaty) and ep["l"] == truth[1]):
+                if not (close_enough(ep["r"], truth[0], tol_for("f32", truth[1], truth[4], floaty)) and ep["l"] == truth[1]):
                     rep.violation("info['episode'] is not the return/length of the episode that ended", case,
                                   dict(sig, field="episode"),
                                   {"env": i, "op_index": si, "reported": [str(ep["r"]), ep["l"]],
@@ -767,7 +910,8 @@ def oracle_vecmonitor(ctx, case, r):
     if r["file_rows"] is not None:
         rows = [(x["r"], x["l"]) for x in r["file_rows"]]
         truth = [(t[0], t[1]) for _, _, t in order]
-        if len(rows) != len(truth) or not all(close_enough(g[0], t[0], floaty) and g[1] == t[1] for g, t in zip(rows, truth)):
+        if len(rows) != len(truth) or not all(close_enough(g[0], t[0], tol_for("f32", t[1], t[4], floaty)) and g[1] == t[1]
+                                              for g, (_, _, t) in zip(rows, order)):
             rep.violation("load_results does not list the completed episodes in order", case, dict(sig, field="file"),
                           {"got": [[str(a), b] for a, b in rows], "true": [[str(a), b] for a, b in truth]})
             return
@@ -790,19 +934,19 @@ def cmp_vecmonitor(ctx, case, r, mo):
                 return
             continue
         m_eps = [model_ep(x) for x in out]
-        if len(m_eps) != len(st["eps"]) or not all(ep_same(a, b, floaty) for a, b in zip(st["eps"], m_eps)):
+        if len(m_eps) != len(st["eps"]) or not all(ep_same(a, b, ctol("f32", case)) for a, b in zip(st["eps"], m_eps)):
             rep.disagree("vecmonitor", case, [str(x) for x in st["eps"]], [str(x) for x in m_eps], f"infos of op {si}")
             return
     m_rets = [unratj(x) for x in mo["rets"]]
     if not (mo["count"] == r["count"] and mo["lens"] == r["lens"] and len(m_rets) == len(r["rets"])
-            and all(close_enough(a, b, floaty) for a, b in zip(r["rets"], m_rets))):
+            and all(close_enough(a, b, ctol("f32", case)(max(l, 1))) for a, b, l in zip(r["rets"], m_rets, r["lens"]))):
         rep.disagree("vecmonitor", case, {"count": r["count"], "lens": r["lens"], "rets": [str(x) for x in r["rets"]]},
                      {k: mo[k] for k in ("count", "lens", "rets")}, "accumulators")
         return
     if r["file_rows"] is not None:
         m_rows = [model_ep(x) for x in mo["rows"]]
         i_rows = [{"r": x["r"], "l": x["l"], "extra": x["extra"]} for x in r["file_rows"]]
-        if len(m_rows) != len(i_rows) or not all(ep_same(a, b, floaty) for a, b in zip(i_rows, m_rows)):
+        if len(m_rows) != len(i_rows) or not all(ep_same(a, b, ctol("f32", case)) for a, b in zip(i_rows, m_rows)):
             rep.disagree("vecmonitor", case, [str(x) for x in i_rows], [str(x) for x in m_rows], "rows read back with load_results")
             return
     rep.agree()
@@ -824,12 +968,13 @@ def run_eval(ctx, case):
         warnings.simplefilter("ignore")
         inner = wrap in ("monitor", "both")
         if case["gym_env"]:
-            env = make_env_fn(0, case["scripts"][0], monitor=inner)()
+            env = make_env_fn(0, case["scripts"][0], monitor=inner, rdtype=case.get("rdtype", "float"))()
             bases = [env.unwrapped]
             target = env
             venv = None
         else:
-            venv = DummyVecEnv([make_env_fn(i, case["scripts"][i], monitor=inner) for i in range(n)])
+            venv = DummyVecEnv([make_env_fn(i, case["scripts"][i], monitor=inner, rdtype=case.get("rdtype", "float"))
+                                for i in range(n)])
             bases = [venv.envs[i].unwrapped for i in range(n)]
             target = VecMonitor(venv) if wrap in ("vecmonitor", "both") else venv
         if case["pre_steps"]:
@@ -860,6 +1005,7 @@ def run_eval(ctx, case):
         if venv is not None:
             target.close()
     res = {"calls": [], "logs": logs}
+    seen = eval_component(case)[1] or float  # Monitor sees the env's own reward, the vectorised observers its float32 cast
     for c in calls:
         # window of each env's log that belongs to this call: starts with the reset made by evaluate_policy
         rows, T = None, None
@@ -872,11 +1018,11 @@ def run_eval(ctx, case):
             for i in range(n):
                 if t < len(per_env_steps[i]):
                     e = per_env_steps[i][t]
-                    row.append({"r": ratj(F(float(np.float32(e[3])))), "d": bool(e[4] or e[5])})
+                    row.append({"r": ratj(F(seen(e[3]))), "d": bool(e[4] or e[5])})
                 else:
                     s = case["scripts"][i]
                     e = s[(c["n_steps_after"][i] + (t - len(per_env_steps[i]))) % len(s)]
-                    row.append({"r": ratj(F(float(np.float32(e[0])))), "d": bool(e[1] or e[2])})
+                    row.append({"r": ratj(F(seen(float(conv_reward(e[0], case.get("rdtype", "float")))))), "d": bool(e[1] or e[2])})
             raw_rows.append(row)
         if case["ret_eps"]:
             rewards = [F(float(x)) for x in c["out"][0]]
@@ -890,43 +1036,54 @@ def run_eval(ctx, case):
                              "rewards": rewards, "lengths": lengths, "mean": mean, "std": std, "predicts": c["predicts"],
                              "cb": c["cb"],
                              "op": {"op": "eval_raw", "n": n, "N": c["N"], "wrap": {"both": "vecmonitor"}.get(wrap, wrap),
-                                    "rows": raw_rows}})
+                                    "spec": not case.get("long", False), "rows": raw_rows}})
     return res
 
 
-def same_multiset(got, want, floaty):
-    """multisets of (return, length) equal; float stream: returns within 1e-5. Grouped by length, then the sorted
-    pairing (which minimises the largest distance between paired points on a line) must be within tolerance."""
+def eval_component(case):
+    """which arithmetic produced the returns evaluate_policy hands back, and what that arithmetic saw of the rewards"""
+    if case["wrap"] == "monitor":
+        return "monitor", None      # Monitor (inside the VecEnv) sees the env's own reward objects
+    if case["wrap"] in ("vecmonitor", "both"):
+        return "f32", f32           # VecMonitor: float32 accumulation of DummyVecEnv's float32 rewards
+    return "f64", f32               # evaluate_policy's own float64 accumulators over DummyVecEnv's float32 rewards
+
+
+def same_multiset(got, want, comp, floaty):
+    """got: [(return, length)]; want: episode tuples (return, length, tag, idx, sum|r|). Multisets equal; float
+    stream: returns within the derived bound of `comp`. Grouped by length, then the sorted pairing (which minimises the
+    largest distance between paired points on a line) must be within the largest bound of the group."""
     if len(got) != len(want):
         return False
     if not floaty:
-        return sorted(got) == sorted(want)
+        return sorted(got) == sorted((w[0], w[1]) for w in want)
     groups = {}
     for r, l in got:
-        groups.setdefault(l, [[], []])[0].append(r)
-    for r, l in want:
-        groups.setdefault(l, [[], []])[1].append(r)
-    for l, (a, b) in groups.items():
+        groups.setdefault(l, [[], [], 0.0])[0].append(r)
+    for w in want:
+        g = groups.setdefault(w[1], [[], [], 0.0])
+        g[1].append(w[0])
+        g[2] = max(g[2], tol_for(comp, w[1], w[4], floaty))
+    for l, (a, b, tol) in groups.items():
         if len(a) != len(b):
             return False
-        tol = 1e-5 * max([1.0] + [abs(float(x)) for x in b])
-        if any(abs(float(x) - float(y)) > tol for x, y in zip(sorted(a), sorted(b))):
+        if any(not close_enough(x, y, tol) for x, y in zip(sorted(a), sorted(b))):
             return False
     return True
 
 
-def mean_std_ok(mean, std, vals, floaty):
+def mean_std_ok(mean, std, vals, tols, float32_arith):
     """
-    mean/std returned by evaluate_policy vs the exact episode returns `vals`, within the DERIVED bound:
-      * float stream: every return may be off by d = 1e-5 * max(1, |r|) (the declared tolerance of that stream);
-        mean and std are 1-Lipschitz in the sup norm of such a perturbation (|std(x+e) - std(x)| <= std(e) <= max|e|);
-      * both streams: with VecMonitor the returns are np.float32, so np.mean / np.std run in float32:
-        (N + 4) * 2^-23 * max(1, max|r|) covers the rounding of the sum, of the division, of x - mean and of the root.
+    mean/std returned by evaluate_policy vs the exact episode returns `vals` (floats), within the DERIVED bound:
+      * every return may be off by its own bound tols[i]; mean and std are 1-Lipschitz in the sup norm of such a
+        perturbation (|std(x+e) - std(x)| <= std(e) <= max|e|);
+      * np.mean / np.std run in the dtype of the returns: float32 with VecMonitor (its returns are np.float32), float64
+        otherwise: (N + 4) * eps * max(1, max|r|) covers the rounding of the sum, the division, x - mean and the root.
     """
     if not vals:
         return math.isnan(mean) and math.isnan(std)
     big = max(1.0, max(abs(v) for v in vals))
-    tol = (1e-5 * big if floaty else 0.0) + (len(vals) + 4) * 2.0 ** -23 * big + 1e-9
+    tol = max(tols) + (len(vals) + 4) * (2.0 ** -23 if float32_arith else 2.0 ** -52) * big + 1e-12
     return abs(mean - float(np.mean(vals))) <= tol and abs(std - float(np.std(vals))) <= tol
 
 
@@ -947,13 +1104,14 @@ def oracle_eval(ctx, case, r):
             rep.violation("evaluate_policy did not reset the environments first / did not step them together", case,
                           dict(sig, field="protocol"))
             return
+        comp, cast = eval_component(case)
         truths = []
         for i in range(n):
-            eps, per, ok = truth_from_log(c["win"][i])
+            eps, per, ok = truth_from_log(c["win"][i], cast=cast)
             if not ok:
                 rep.violation("oracle: scripted env stepped without reset", case, dict(sig, field="protocol"))
                 return
-            truths.append([(e[0], e[1]) for e in eps])
+            truths.append(eps)
         if c["rewards"] is not None:
             got = list(zip(c["rewards"], c["lengths"]))
             if len(got) != N or len(c["rewards"]) != len(c["lengths"]):
@@ -971,12 +1129,13 @@ def oracle_eval(ctx, case, r):
             some_feasible = True
             want = [ep for i in range(n) for ep in truths[i][:q[i]]]
             if got is not None:
-                if same_multiset(got, want, floaty):
+                if same_multiset(got, want, comp, floaty) and \
+                        (comp != "monitor" or not floaty or all(six_decimals(g[0]) for g in got)):
                     found = True
                     break
             else:
                 vals = [float(x[0]) for x in want]
-                if mean_std_ok(c["mean"], c["std"], vals, floaty):
+                if mean_std_ok(c["mean"], c["std"], vals, [tol_for(comp, w[1], w[4], floaty) for w in want], comp == "f32"):
                     found = True
                     break
         if not found:
@@ -984,7 +1143,7 @@ def oracle_eval(ctx, case, r):
                           "the envs, each with its true return and length", case, dict(sig, field="episodes"),
                           {"N": N, "n": n, "returned": None if got is None else [[str(a), b] for a, b in got],
                            "mean_std": [c["mean"], c["std"]],
-                           "completed_per_env": [[[str(a), b] for a, b in t] for t in truths],
+                           "completed_per_env": [[[str(e[0]), e[1]] for e in t] for t in truths],
                            "an_even_split_was_available": some_feasible})
             return
         if c["cb"]:
@@ -1010,26 +1169,28 @@ def cmp_eval(ctx, case, r, mouts):
             rep.disagree("eval", case, "ok", mo)
             return
         m_out = [(unratj(p[0]), p[1]) for p in mo["out"]]
-        m_spec = [(unratj(p[0]), p[1]) for p in mo["spec"]]
+        m_spec = [(unratj(p[0]), p[1]) for p in mo["spec"]] if mo.get("spec") is not None else None
         if not mo["finished"] or mo["steps"] != c["T"]:
             rep.disagree("eval", case, {"steps": c["T"]}, {"steps": mo["steps"], "finished": mo["finished"]},
                          "number of env.step calls made by evaluate_policy")
             return
         if c["rewards"] is not None:
             got = list(zip(c["rewards"], c["lengths"]))
-            if len(got) != len(m_out) or not all(g[1] == m[1] and close_enough(g[0], m[0], floaty) for g, m in zip(got, m_out)):
+            tf = ctol(eval_component(case)[0], case)
+            if len(got) != len(m_out) or not all(g[1] == m[1] and close_enough(g[0], m[0], tf(g[1])) for g, m in zip(got, m_out)):
                 rep.disagree("eval", case, [[str(a), b] for a, b in got], [[str(a), b] for a, b in m_out], "returned lists")
                 return
         else:
             vals = [float(x[0]) for x in m_out]
-            if not mean_std_ok(c["mean"], c["std"], vals, floaty):
+            tf = ctol(eval_component(case)[0], case)
+            if not mean_std_ok(c["mean"], c["std"], vals, [tf(x[1]) for x in m_out], eval_component(case)[0] == "f32"):
                 rep.disagree("eval", case, [c["mean"], c["std"]],
                              [float(np.mean(vals)), float(np.std(vals))] if vals else ["nan", "nan"], "mean/std")
                 return
         if case["wrap"] != "monitor" or not floaty:
             # closed-form specification (own accumulation, no rounding) == loop result; with Monitor the 6-digit rounding
             # separates them on non-dyadic rewards
-            if len(m_spec) != len(m_out) or not all(a[1] == b[1] and close_enough(a[0], b[0], floaty) for a, b in zip(m_out, m_spec)):
+            if mo.get("spec") is not None and m_spec != m_out:
                 rep.disagree("eval", case, "-", {"out": mo["out"], "spec": mo["spec"]}, "model loop vs model closed form")
                 return
         if c["predicts"] != c["T"]:
